@@ -637,7 +637,9 @@ func c14FloatKeyPairs(rng *RNG, o *Out, n int) {
 }
 
 func runC14(tier string, seed uint64, o *Out) error {
-	rng := NewRNG(seed)
+	// rng.go seeds with seed*gamma and steps by gamma: the stream of seed s+1 is the stream of seed s shifted by
+	// one draw (the generated cases of seeds 1, 2, 3 were almost the same).  Spread the seeds first.
+	rng := NewRNG(seed*0x2545F4914F6CDD1D + 0xC14)
 	nk, nq := 3000, 1600
 	if tier == "thorough" {
 		nk, nq = 60000, 30000
